@@ -225,6 +225,8 @@ def harnesses(tier):
     for n, e in TEMPLATE_PARENTS.items():
         out.append(ctor_template(n, e))
     slots = cat.slot()
+    if tier == "thorough":
+        slots = slots[::4]  # thorough tier is sized by wall time (see DESIGN.md 7.1)
     if tier == "quick":
         slots = [t for i, t in enumerate(slots) if i % 8 == 3]
     big = 60 if tier == "quick" else 240
